@@ -417,6 +417,8 @@ type FuncContract struct {
 	Pure       bool // no heap writes, no allocation visible to the caller
 	NoOverflow bool
 	MayPanic   bool // callers must not rely on absence of panics
+	DeadReturns map[int]bool // return statements known to be unreachable under the assumed contracts (defensive code): no cover obligation
+	SplitReturns bool // the representation invariant is checked at each return statement separately
 	NoLocks    bool // the function is entered with no mutex held (obligation at call sites)
 	NoNilCheck bool // nil dereferences are not checked (pointers into node-internal structures)
 	NoPanicCheck bool // do not emit nopanic obligations (functional contract only)
@@ -481,7 +483,7 @@ type ContractFile struct {
 
 var clauseKW = map[string]bool{"mapval": true, "global": true, "func": true, "spec": true, "uf": true, "lemma": true, "axiom": true,
 	"props": true, "requires": true, "ensures": true, "panics": true, "modifies": true, "loop": true,
-	"inline": true, "assumed": true, "pure": true, "nooverflow": true, "maypanic": true, "nopaniccheck": true, "nonilcheck": true, "nolocks": true,
+	"inline": true, "assumed": true, "pure": true, "nooverflow": true, "maypanic": true, "nopaniccheck": true, "nonilcheck": true, "nolocks": true, "splitreturns": true, "deadreturn": true,
 	"split": true, "excuse": true, "makebound": true, "recspec": true, "induct": true, "datainv": true}
 
 var labelRe = regexp.MustCompile(`^([A-Za-z_][A-Za-z0-9_]*):\s+(.*)$`)
@@ -767,6 +769,19 @@ func parseContractFile(path, pkg string) (*ContractFile, error) {
 				cur.NoNilCheck = true
 			case "nolocks":
 				cur.NoLocks = true
+			case "splitreturns":
+				cur.SplitReturns = true
+			case "deadreturn":
+				if cur.DeadReturns == nil {
+					cur.DeadReturns = map[int]bool{}
+				}
+				for _, f := range strings.Fields(strings.ReplaceAll(rest, ",", " ")) {
+					n, err := strconv.Atoi(f)
+					if err != nil {
+						return nil, fmt.Errorf("%s: deadreturn needs return ordinals", pos)
+					}
+					cur.DeadReturns[n] = true
+				}
 			default:
 				return nil, fmt.Errorf("%s: unknown clause %q", pos, kw)
 			}
